@@ -172,4 +172,31 @@ theorem mask_view (sh : List Nat) (st : State) (v : View) (hw : Spec.stateWf sh 
   rw [mask_gather sh v hv st hw hq, mask_gather sh .none rfl st hw (quiet_none sh st hw), gather_none]
   exact (index_tabulate sh _ v).symm
 
+/-- Selections without a loud leaf are quiet under every view. -/
+theorem plain_quiet (sh : List Nat) (v : View) : ∀ st : State, st.plain = true → st.quiet sh v = true
+  | .and a b, h => by
+    simp only [State.plain, Bool.and_eq_true] at h
+    simp [State.quiet, plain_quiet sh v a h.1, plain_quiet sh v b h.2]
+  | .or a b, h => by
+    simp only [State.plain, Bool.and_eq_true] at h
+    simp [State.quiet, plain_quiet sh v a h.1, plain_quiet sh v b h.2]
+  | .xor a b, h => by
+    simp only [State.plain, Bool.and_eq_true] at h
+    simp [State.quiet, plain_quiet sh v a h.1, plain_quiet sh v b h.2]
+  | .inv a, h => by
+    simp only [State.plain] at h
+    simp [State.quiet, plain_quiet sh v a h]
+  | .roiChunked _ _, h => by simp [State.plain] at h
+  | .loop1d _ _, h => by simp [State.plain] at h
+  | .base, _ => rfl
+  | .pred _ _, _ => rfl
+  | .pred2 _ _ _, _ => rfl
+  | .table _, _ => rfl
+  | .roiPix _ _, _ => rfl
+  | .sliceSt _, _ => rfl
+  | .unrelated, _ => rfl
+  | .maskSame _, _ => rfl
+  | .maskAxes _ _ _, _ => rfl
+  | .element _, _ => rfl
+
 end GlueVerif.Lemmas.C04
